@@ -107,7 +107,11 @@ def hedge_bfs(args):
                 # probabilities of this state (needed to place the draws around the decision boundary)
                 probe = copy.deepcopy(h)
                 draw["v"] = 0.0
-                probe(None, None, None, None, None, {})
+                try:
+                    probe(None, None, None, None, None, {})
+                except Exception as e:  # noqa  (a draw of 0 must always select a strategy)
+                    bad.setdefault("hedge-exception/%s" % type(e).__name__, (canon(h), 0.0, "probe", None, repr(e)[:100]))
+                    continue
                 p0 = float(probe.prob[0])
                 for dv in (0.0, max(0.0, p0 - 1e-9), min(1.0 - 1e-12, p0 + 1e-9), 1.0 - 1e-12):
                     for rname, (df, fs) in rewards.items():
